@@ -4,8 +4,16 @@ scratch copy of /repo; never touches /repo.  Expected outcome for every property
 but listed; VIOLATION is a false alarm that must be fixed in the machinery.  Writes harmless_report.json.  Not part of any check."""
 import os, sys, json, subprocess, tempfile, shutil, re, hashlib
 VERIF = os.path.dirname(os.path.dirname(os.path.abspath(__file__)))
+REAL_VERIF = VERIF
+def snapshot():
+    """SNAPSHOT: run against a frozen copy of the machinery so that editing /verif while a long self-test runs cannot disturb it"""
+    global VERIF
+    snap = tempfile.mkdtemp(prefix="verif_snap_")
+    subprocess.run(["rsync", "-a", "--exclude", "build", "--exclude", ".git", "--exclude", "seeded", "--exclude", "harmless", "--exclude", "evidence", "--exclude", "replays", REAL_VERIF + "/", snap + "/"], check=True)
+    VERIF = snap
+    return snap
 def run_one(hid, replay, base="harmless"):
-    d = os.path.join(VERIF, base, hid)
+    d = os.path.join(REAL_VERIF, base, hid)
     tmp = tempfile.mkdtemp(prefix="hl_")
     try:
         for f in ("src", "Cargo.toml", "Cargo.lock"):
@@ -33,8 +41,9 @@ def run_one(hid, replay, base="harmless"):
         shutil.rmtree(tmp, ignore_errors=True)
 if __name__ == "__main__":
     replay = "--replay" in sys.argv
+    snap = None if "--live" in sys.argv else snapshot()
     base = "seeded" if "--seeded" in sys.argv else "harmless"   # --seeded: cross-property matrix of the seeded (property-breaking) changes
-    ids = [a for a in sys.argv[1:] if not a.startswith("--")] or sorted(x for x in os.listdir(os.path.join(VERIF, base)) if x != "obsolete")
+    ids = [a for a in sys.argv[1:] if not a.startswith("--")] or sorted(x for x in os.listdir(os.path.join(REAL_VERIF, base)) if x != "obsolete")
     from concurrent.futures import ThreadPoolExecutor
     with ThreadPoolExecutor(max_workers=3) as ex:
         res = list(ex.map(lambda s: run_one(s, replay, base), ids))
@@ -42,7 +51,8 @@ if __name__ == "__main__":
         bad = {k: v for k, v in (r.get("per_property") or {}).items() if v != "OK"}
         print("%-8s %-10s %s %s" % (r["id"], r["outcome"], bad or "", (r.get("lines") or [""])[0][:140]))
     if len(ids) > 5:
-        json.dump({"results": res}, open(os.path.join(VERIF, "crosscheck_report.json" if base == "seeded" else "harmless_report.json"), "w"), indent=1)
+        json.dump({"results": res}, open(os.path.join(REAL_VERIF, "crosscheck_report.json" if base == "seeded" else "harmless_report.json"), "w"), indent=1)
     c = {}
     for r in res: c[r["outcome"]] = c.get(r["outcome"], 0) + 1
     print(c)
+    if snap: shutil.rmtree(snap, ignore_errors=True)
